@@ -249,3 +249,102 @@ def check_index_provenance(run, rule):
     run.floor(rule, 20, "index assignments in block.cpp")
     run.info["index_members"] = sorted(members_seen)
     run.info["table_adders"] = {short(k): v for k, v in adders.items()}
+
+
+# ------------------------------------------------------------------ A6: enumerator values / kinds vs RFC 8618
+
+RFC_KIND = {"uint": ("UINT",), "int": ("INT", "UINT"), "bool": ("BOOL",), "tstr": ("TEXT",), "bstr": ("BYTES",),
+            "time": ("STRUCT", "ARRAY")}
+
+
+def writer_kind_class(kind):
+    if kind is None:
+        return None
+    if kind.startswith("UINT"):
+        return "UINT"
+    if kind.startswith("INT"):
+        return "INT"
+    return kind
+
+
+def check_rfc_keys(run, rule, analyses_by_struct, only=None):
+    """analyses_by_struct: struct qn -> WriterAnalysis (top-level map rows). Checks key numbers and CBOR kinds
+    of every row against RFC 8618; private negative keys only for uniqueness."""
+    facts = run.facts
+    n = 0
+    for mname, m in rfc()["maps"].items():
+        if only and mname not in only:
+            continue
+        en = facts.enum(m["enum"], rule=rule)
+        evals = {e["n"]: e["v"] for e in en["enumerators"]}
+        # 1. every RFC member has an enumerator of that name with the RFC key number
+        for rname, mem in m["members"].items():
+            n += 1
+            cand = [rname.replace("-", "_"), rname.replace("-", "_") + "_"]
+            hit = [c for c in cand if c in evals]
+            if not hit and mem.get("code") in evals:
+                hit = [mem["code"]]
+            if not hit:
+                # the code may spell the member differently; fall back to the key number and report as unrecognised
+                byval = [k for k, v in evals.items() if v == mem["key"] and not k.endswith("_size")]
+                if len(byval) == 1:
+                    run.ob(rule, "%s.%s:key" % (mname, rname), True, en["file"], en["line"],
+                           "key %d (enumerator %s)" % (mem["key"], byval[0]), nontrivial=False)
+                else:
+                    run.ob(rule, "%s.%s:key" % (mname, rname), None, en["file"], en["line"],
+                           "no enumerator in %s can be matched to RFC member %s" % (m["enum"], rname))
+                continue
+            ok = evals[hit[0]] == mem["key"]
+            run.ob(rule, "%s.%s:key" % (mname, rname), ok, en["file"], en["line"],
+                   "map key %d as in RFC 8618" % mem["key"] if ok else
+                   "%s::%s = %d but RFC 8618 assigns key %d to %s: files are unreadable for any other RFC 8618 implementation" % (
+                       m["enum"], hit[0], evals[hit[0]], mem["key"], rname))
+        # 2. uniqueness of all member enumerators (incl. private negative keys)
+        vals = {}
+        for k, v in evals.items():
+            if k.endswith("_size"):
+                continue
+            vals.setdefault(v, []).append(k)
+        dup = {v: ks for v, ks in vals.items() if len(ks) > 1}
+        run.ob(rule, "%s:unique-keys" % mname, not dup, en["file"], en["line"],
+               "all keys of %s are distinct" % mname if not dup else "duplicate key numbers %s" % dup, nontrivial=False)
+        # 3. kinds the writer emits vs RFC types
+        wa = analyses_by_struct.get((m["struct"], m["enum"]))
+        if wa is None:
+            continue
+        for r in wa.rows:
+            rname, mem = None, None
+            for rn, mm in m["members"].items():
+                if mm["key"] == r["keyval"]:
+                    rname, mem = rn, mm
+            if mem is None:
+                if r["keyval"] is not None and r["keyval"] < 0 and m.get("private_negative_keys"):
+                    continue
+                run.ob(rule, "%s.key(%s):rfc" % (mname, r["name"]), False, wa.fn, r["line"],
+                       "writer emits key %s=%s which RFC 8618 does not define for %s" % (r["name"], r["keyval"], mname))
+                continue
+            v = r["value"]
+            wk = writer_kind_class(v.kind if v is not None else None)
+            t = mem["type"]
+            n += 1
+            if t.startswith("map:"):
+                ok = wk in ("STRUCT", "MAP")
+            elif t.startswith("array:"):
+                ok = wk == "ARRAY"
+                if ok and v.elem is not None:
+                    from . import agreement
+                    et = t[len("array:"):]
+                    ek = writer_kind_class(agreement.effective(v.elem, facts)[0])
+                    if et.startswith("map:"):
+                        ok = ek in ("STRUCT",)
+                    elif et.startswith("array:"):
+                        ok = ek in ("STRUCT", "ARRAY")
+                    else:
+                        ok = ek in RFC_KIND.get(et, ())
+            else:
+                ok = wk in RFC_KIND.get(t, ())
+            run.ob(rule, "%s.%s:type" % (mname, rname), ok, wa.fn, r["line"],
+                   "written as %s, RFC type %s" % (wk, t) if ok else
+                   "member %s is written as CBOR %s%s but RFC 8618 types it %s" % (
+                       rname, wk, ("[%s]" % ek) if v is not None and v.elem is not None else "", t))
+    return n
